@@ -292,3 +292,8 @@ Proof. intros f H. unfold reencode_ok, max_wire_payload in *. cbv zeta.
 
 Theorem demux_total : forall m f, len (mf_data f) <= max_wire_payload -> demux_res m f = Ok (demux m f).
 Proof. intros m f H. unfold demux_res. rewrite (reencode_ok_wire f H). rewrite andb_false_r. reflexivity. Qed.
+
+(* ---- reap delay vs. the peer's lastAck timer *)
+Lemma reap_delay_covers : forall ta tc rtt_a rtt_o, ta <= tc -> rtt_a <= rtt_o ->
+  predecessor_gone_at_reuse ta tc rtt_a rtt_o.
+Proof. intros. unfold predecessor_gone_at_reuse, reap_delay, last_ack_duration. lia. Qed.
